@@ -8,7 +8,7 @@ import numpy  # noqa: E402
 import xarray  # noqa: E402
 
 import emsarray  # noqa: F401,E402
-from coqio import Some, coq_eval_sharded, to_coq  # noqa: E402
+from coqio import Some, coq_eval_sharded, to_coq, tup  # noqa: E402
 import gen  # noqa: E402
 from hutil import attempt  # noqa: E402
 
@@ -210,6 +210,158 @@ def other_grid_leg(ctx, axes):
                 if rq[0] == 'ok':
                     ctx.report('property', f'vector components on the {kind} grid ({size} locations) were drawn as arrows at the {ncell} '
                                f'cell centres', dict(case, given_as=how, through='make_quiver'))
+
+
+def _classify(r):
+    """An outcome of make_poly_collection / make_quiver as the small enumeration of Model.PlotArgs."""
+    if r[0] == 'ok':
+        return 0
+    kind, msg = r[1]
+    if kind == 'TypeError':
+        return 1
+    if kind == 'ValueError' and 'Unknown grid kind' in msg:
+        return 2
+    if kind == 'ValueError' and 'not defined on the cells' in msg:
+        return 3
+    if kind == 'ValueError' and 'too many dimensions' in msg:
+        return 4
+    if kind == 'ValueError' and 'dimensions must be identical' in msg:
+        return 1
+    return (9, kind, msg[:80])
+
+
+def _transform_of(artist):
+    # (an artist left with a coordinate system instead of a transform, and no axes, cannot resolve it)
+    try:
+        return artist.get_transform()
+    except Exception:      # noqa: BLE001
+        return None
+
+
+def _attempt_msg(f):
+    try:
+        return ('ok', f())
+    except Exception as e:      # noqa: BLE001
+        return ('err', (type(e).__name__, str(e)))
+
+
+def arguments_leg(ctx, axes):
+    """What make_poly_collection / make_quiver do with their arguments - draw from the variable, from what the caller
+    supplied, or refuse - against Model.PlotArgs: variables on the cells' grid (dimensions in any order), on another grid of
+    the dataset, with a leftover dimension, on no grid at all, x array / clim / transform supplied or not."""
+    from matplotlib.transforms import Affine2D
+    rng = ctx.rng
+    n_ds = 12 if ctx.tier == 'quick' else 60
+    exprs, plans = [], []
+    for n in range(n_ds):
+        d = gen.any_dataset(rng, gen.FAMILIES[n % len(gen.FAMILIES)])
+        ds = d.ds
+        with warnings.catch_warnings():
+            warnings.simplefilter('ignore')
+            ems = ds.ems
+            ncell = len(ems.polygons)
+            mask = numpy.asarray(ems.mask)
+        if not mask.any():
+            continue
+        kinds = list(ems.grid_dimensions.items())
+        kind_keys = [k for k, _ in kinds]
+        default = kind_keys.index(ems.default_grid_kind)
+        dim_ids = {str(x): i for i, x in enumerate(ds.dims)}
+        dim_ids.update({'layer': 900, 'loose': 901})
+        glit = to_coq([tup(i, [dim_ids[str(x)] for x in dims]) for i, (_k, dims) in enumerate(kinds)])
+        variables = {}
+        for i, (k, kdims) in enumerate(kinds):
+            if not all(g in ds.sizes for g in kdims):
+                continue
+            shape = [ds.sizes[g] for g in kdims]
+            size = int(numpy.prod(shape))
+            base = xarray.DataArray((numpy.arange(size, dtype='f8') + 7000 + 100 * i).reshape(shape), dims=list(kdims))
+            order = list(kdims)
+            rng.shuffle(order)
+            variables[f'pa_{i}'] = base.transpose(*order)
+            variables[f'pa_{i}_layer'] = base.expand_dims(layer=2).transpose(*rng.sample(order + ['layer'], len(order) + 1))
+        variables['pa_loose'] = xarray.DataArray(numpy.arange(3.0), dims=['loose'])
+        for nm, da in variables.items():
+            ds[nm] = da
+        for nm in variables:
+            dims = [dim_ids[str(x)] for x in ds[nm].dims]
+            has_array, has_clim, has_transform = rng.random() < 0.25, rng.random() < 0.5, rng.random() < 0.5
+            kw = {}
+            user_array = numpy.arange(int(mask.sum()), dtype='f8') - 50.0
+            user_clim = (-123.0, 456.0)
+            t = Affine2D().scale(2.0)
+            if has_array:
+                kw['array'] = user_array
+            if has_clim:
+                kw['clim'] = user_clim
+            if has_transform:
+                kw['transform'] = t
+            use_none = rng.random() < 0.2
+            arg = None if use_none else (nm if rng.random() < 0.5 else ds[nm])
+            case = {'dataset': d.spec['label'], 'variable': None if use_none else {'dims': list(map(str, ds[nm].dims))},
+                    'array': has_array, 'clim': has_clim, 'transform': has_transform}
+            with warnings.catch_warnings():
+                warnings.simplefilter('ignore')
+                r = _attempt_msg(lambda: ems.make_poly_collection(arg, **kw))
+            code = _classify(r)
+            if code == 0:
+                pc = r[1]
+                arr = pc.get_array()
+                if arr is None:
+                    a_src = 2
+                elif has_array and numpy.array_equal(numpy.asarray(arr), user_array):
+                    a_src = 1
+                else:
+                    want = ds[nm].transpose(*kinds[default][1]).values.reshape(-1)[mask] if not use_none and set(ds[nm].dims) == set(kinds[default][1]) else None
+                    a_src = 0 if want is not None and numpy.array_equal(numpy.asarray(arr, dtype='f8'), want) else 8
+                clim = pc.get_clim()
+                if clim == (None, None) or (use_none and not has_clim):
+                    # (without a variable and without clim nothing is asked of matplotlib, which scales to the array it holds, if any)
+                    c_src = 2 if clim == (None, None) or (arr is not None and tuple(clim) == (float(numpy.nanmin(arr)), float(numpy.nanmax(arr)))) else 8
+                elif tuple(clim) == user_clim:
+                    c_src = 1
+                else:
+                    c_src = 0 if arr is not None and tuple(clim) == (float(numpy.nanmin(arr)), float(numpy.nanmax(arr))) else 8
+                got = tup(0, a_src, c_src, _transform_of(pc) is t)
+            else:
+                got = tup(code, -1, -1, False) if isinstance(code, int) else code
+            exprs.append(f'(show_poly (make_poly_collection {glit} {default} {"None" if use_none else "(Some " + to_coq(dims) + ")"} '
+                         f'{to_coq(has_array)} {to_coq(has_clim)} {to_coq(has_transform)}))')
+            plans.append((case, 'make_poly_collection', got))
+            ctx.count(f'arguments:make_poly_collection:outcome={code if isinstance(code, int) else "other"}')
+            # arrows: u and v the same variable, a differently ordered one, or one left out
+            v_nm = nm if rng.random() < 0.7 else rng.choice(list(variables))
+            u_arg = None if rng.random() < 0.15 else nm
+            v_arg = None if rng.random() < 0.15 else v_nm
+            qkw = {'transform': t} if has_transform else {}
+            with warnings.catch_warnings():
+                warnings.simplefilter('ignore')
+                rq = _attempt_msg(lambda: ems.make_quiver(axes, u_arg, v_arg, **qkw))
+            qcode = _classify(rq)
+            if qcode == 0:
+                q = rq[1]
+                U = numpy.asarray(q.U, dtype='f8')
+                # (matplotlib masks invalid components: with both NaN nothing is drawn)
+                if (u_arg is None or v_arg is None) and q.Umask is not numpy.ma.nomask and bool(numpy.all(q.Umask)):
+                    q_src = 2
+                else:
+                    want = ds[nm].transpose(*kinds[default][1]).values.reshape(-1) if set(ds[nm].dims) == set(kinds[default][1]) else None
+                    q_src = 0 if want is not None and numpy.array_equal(U, want) else 8
+                gotq = tup(0, q_src, q.transform is t)
+            else:
+                gotq = tup(qcode, -1, False) if isinstance(qcode, int) else qcode
+            def lit(a):
+                return 'None' if a is None else '(Some ' + to_coq([dim_ids[str(x)] for x in ds[a].dims]) + ')'
+            exprs.append(f'(show_quiver (make_quiver {glit} {default} {lit(u_arg)} {lit(v_arg)} {to_coq(has_transform)}))')
+            plans.append((dict(case, u=u_arg and list(map(str, ds[u_arg].dims)), v=v_arg and list(map(str, ds[v_arg].dims))), 'make_quiver', gotq))
+            ctx.count(f'arguments:make_quiver:outcome={qcode if isinstance(qcode, int) else "other"}')
+    model = coq_eval_sharded(['Model.PlotArgs'], exprs, shard=40, workers=8)
+    ctx.leg('argument_cases', len(exprs))
+    for (case, what, got), m in zip(plans, model):
+        if got != m:
+            ctx.report('correspondence', f'model PlotArgs.{what} = {m}, implementation {got} (0 drawn: sources data 0 / caller 1 / absent 2, '
+                       f'caller\'s transform used; 1 both arrays or differing dimensions; 2 no grid; 3 another grid; 4 leftover dimension)',
+                       case, found_input=False)
 
 
 def run(ctx):
@@ -462,6 +614,7 @@ def run(ctx):
         if n % 2 == 0:
             figure_level(ctx, rng, d, ds, ems, polys, centres, gdims, shape, dict(case))
     other_grid_leg(ctx, axes)
+    arguments_leg(ctx, axes)
     plt.close(fig)
     model = coq_eval_sharded(['Model.Export'], exprs, shard=6, workers=12)
     ctx.leg('collections', len(exprs))
